@@ -316,3 +316,36 @@ def spawned_task(prog, outer, spawn_pat=r"spawn_fifo|ThreadPool::spawn"):
     if len(hits) != 1:
         raise Inconclusive("task closure spawned by %s: %d candidates" % (outer.name, len(hits)))
     return hits[0]
+
+
+def install_battery(rep, ctx, names):
+    """Fallback confirmation for abstract counterexamples: before an obligation with verdict 'violated' and without a native
+    confirmation is added to the report, the property's native batteries (replay/batteries.py) are run on the binary built
+    from the same scratch copy; a deviation confirms the counterexample, none leaves it inconclusive."""
+    import json
+    import sys
+    import native
+    from common import VERIF
+    orig = rep.add
+
+    def add(o):
+        if o.verdict == "violated" and not o.stats.get("traces_validated") and not os.environ.get("VERIF_NO_REPLAY_GATE"):
+            sys.path.insert(0, os.path.join(VERIF, "replay"))
+            import batteries
+            try:
+                binary = native.build_binary(ctx.src)
+                devs = []
+                for n in names:
+                    devs = getattr(batteries, n)(binary)
+                    if devs:
+                        break
+                if devs:
+                    o.stats["traces_validated"] = 1
+                    o.cex = dict(o.cex or {}, native_battery=devs[:5])
+                    o.detail = (o.detail + "; replayed natively (%s): %s" % (n, json.dumps(devs[0], default=str)[:400])).strip("; ")
+                else:
+                    o.detail += "; native batteries %s found no deviation" % ",".join(names)
+            except Inconclusive as e:
+                o.detail += "; replay build failed: %s" % e
+        return orig(o)
+    rep.add = add
